@@ -48,6 +48,7 @@ def _table(f):
 
 LOWER = _table(str.lower)
 UPPER = _table(str.upper)
+CASEFOLD = _table(str.casefold)
 IDENT = Table((c, c) for c in ALPHA)
 _COMPOSED = {}
 
@@ -417,11 +418,18 @@ class SymStr:
         out = []
         for ch in self.c:
             if is_sym(ch):
-                out.append(ch.mapped(table))
+                mc = ch.mapped(table)
+                if mc.name is not None:
+                    img = {mc.m[c] for c in mc.domain()}
+                    if len(img) == 1 and None not in img:
+                        out.append(img.pop())   # same image for the whole
+                        continue                # domain: a concrete char
+                out.append(mc)
             else:
                 t = table.get(ch)
                 if t is None:
                     r = (chr(ch).lower() if table is LOWER
+                         else chr(ch).casefold() if table is CASEFOLD
                          else chr(ch).upper())
                     out.extend(ord(x) for x in r)
                 else:
@@ -435,6 +443,10 @@ class SymStr:
     @guard
     def upper(self):
         return self._map(UPPER)
+
+    @guard
+    def casefold(self):
+        return self._map(CASEFOLD)
 
     # -- searching
     @guard
